@@ -55,22 +55,34 @@ def build_tools(race=False):
         notes.append("extractor build failed: " + out[-2000:])
     shutil.copyfile(os.path.join(REPO, "go.sum"), os.path.join(VERIF, "harness", "go.sum"))
     sh(["go", "mod", "edit", "-replace=github.com/SKAARHOJ/rawpanel-lib=" + REPO], cwd=os.path.join(VERIF, "harness"), env=GOENV)
+    # build under a temporary name and rename: a concurrently running check never finds the binary missing, and a
+    # failed build leaves no stale binary behind (it is removed)
     hb = os.path.join(BIN, "harness")
-    if os.path.exists(hb):
-        os.remove(hb)  # never run a stale binary
-    rc, out = sh(["go", "build", "-tags", "verif", "-o", hb, "."], cwd=os.path.join(VERIF, "harness"), env=GOENV)
+    tmp = hb + f".new{os.getpid()}"
+    rc, out = sh(["go", "build", "-tags", "verif", "-o", tmp, "."], cwd=os.path.join(VERIF, "harness"), env=GOENV)
     harness_ok = rc == 0
     if rc != 0:
         notes.append("harness build failed (does /repo still compile with -tags verif?): " + out[-3000:])
+        for f in (tmp, hb):
+            if os.path.exists(f):
+                os.remove(f)
+    else:
+        os.replace(tmp, hb)
     hr = os.path.join(BIN, "harness-race")
-    if os.path.exists(hr):
-        os.remove(hr)
+    race_ok = True
     if race and harness_ok:
-        rc, out = sh(["go", "build", "-race", "-tags", "verif", "-o", hr, "."], cwd=os.path.join(VERIF, "harness"),
+        tmp = hr + f".new{os.getpid()}"
+        rc, out = sh(["go", "build", "-race", "-tags", "verif", "-o", tmp, "."], cwd=os.path.join(VERIF, "harness"),
                      env=dict(GOENV, CGO_ENABLED="1"))
         if rc != 0:
+            race_ok = False
             notes.append("race-instrumented harness did not build: " + out[-1500:])
-    return harness_ok, notes
+            for f in (tmp, hr):
+                if os.path.exists(f):
+                    os.remove(f)
+        else:
+            os.replace(tmp, hr)
+    return harness_ok, notes, race_ok
 
 
 def regenerate():
@@ -135,12 +147,11 @@ def lean_build(pid):
         axs = set(a.strip() for a in (m.group(3) or "").split(",") if a.strip())
         res["axioms"][name] = sorted(axs)
     for th in res["obligations"]:
-        short = th.split(".")[-1]
-        hit = [k for k in res["axioms"] if k == th or k.endswith("." + th) or k.endswith("." + short)]
-        if hit and set(res["axioms"][hit[0]]) <= ALLOWED_AXIOMS:
+        hit = [k for k in res["axioms"] if k == th or k.endswith("." + th)]
+        if hit and all(set(res["axioms"][k]) <= ALLOWED_AXIOMS for k in hit):
             res["discharged"].append(th)
         else:
-            res["failing"].append(f"audit: {th} axioms={res['axioms'].get(hit[0]) if hit else 'not found'}")
+            res["failing"].append(f"audit: {th} axioms={[res['axioms'][k] for k in hit] if hit else 'not found'}")
     if rc != 0:
         res["failing"].append("audit file did not check: " + out[-500:])
     # forbidden constructs anywhere in the Lean sources (comments stripped)
@@ -170,8 +181,14 @@ def run_harness(fam, seed, n, tier, outpath, replay=None, timeout=3600, extra=No
         cmd += extra
     env = dict(os.environ, GOMEMLIMIT="6GiB")
     errpath = outpath + ".stderr"
+    rc_to = None
     with open(outpath, "w") as f, open(errpath, "w") as fe:
-        p = subprocess.run(cmd, stdout=f, stderr=fe, text=True, timeout=timeout, env=env)
+        try:
+            p = subprocess.run(cmd, stdout=f, stderr=fe, text=True, timeout=timeout, env=env)
+        except subprocess.TimeoutExpired:
+            rc_to = -9
+    if rc_to is not None:
+        return rc_to, f"harness did not finish within {timeout} s (hang?)"
     tail = ""
     try:
         with open(errpath, "rb") as fe:
@@ -188,7 +205,10 @@ def run_driver(inpath, outpath, timeout=3600, shards=1):
     exe = os.path.join(LEAN, ".lake", "build", "bin", "driver")
     if shards <= 1:
         with open(inpath) as fi, open(outpath, "w") as fo:
-            p = subprocess.run([exe], stdin=fi, stdout=fo, stderr=subprocess.PIPE, text=True, timeout=timeout)
+            try:
+                p = subprocess.run([exe], stdin=fi, stdout=fo, stderr=subprocess.PIPE, text=True, timeout=timeout)
+            except subprocess.TimeoutExpired:
+                return -9, f"driver did not finish within {timeout} s"
         return p.returncode, p.stderr[-2000:]
     size = os.path.getsize(inpath)
     cuts = [0]
@@ -210,7 +230,13 @@ def run_driver(inpath, outpath, timeout=3600, shards=1):
     rc, err = 0, ""
     with open(outpath, "w") as fo:
         for (p, part_in, part_out) in procs:
-            _, e = p.communicate(timeout=timeout)
+            try:
+                _, e = p.communicate(timeout=timeout)
+            except subprocess.TimeoutExpired:
+                p.kill()
+                _, e = p.communicate()
+                e = (e or "") + f" driver shard did not finish within {timeout} s"
+                rc = rc or -9
             rc = rc or p.returncode
             err += (e or "")[-500:]
             with open(part_out) as g:
@@ -370,6 +396,26 @@ def main():
     if "--replay" in args:
         replay = args[args.index("--replay") + 1]
     cfg = PROPS[pid]
+    replay_note = None
+    if replay:
+        # the file named by a VIOLATION line is a JSON report: replay its records; a report without records
+        # (proof obligation / correspondence no longer checks, no failing input) is re-decided by the normal check
+        try:
+            rep_json = json.load(open(replay))
+        except (ValueError, OSError):
+            rep_json = None
+        if isinstance(rep_json, dict):
+            recs = rep_json.get("records") or (rep_json.get("smallest_disagreement") or {}).get("records") or []
+            if rep_json.get("kind") == "no-longer-shown-to-hold" or not recs:
+                replay_note = "replay file carries no failing input: running the normal check"
+                replay = None
+            else:
+                os.makedirs(os.path.join(WORK, pid), exist_ok=True)
+                rp_in = os.path.join(WORK, pid, "replay.in")
+                with open(rp_in, "w") as f:
+                    f.write("\n".join(recs) + "\n")
+                replay = rp_in
+    is_replay = replay is not None
     seed = int(os.environ.get("VERIF_SEED", "1"))
     tier = os.environ.get("VERIF_TIER", tier)
     t0 = time.time()
@@ -379,9 +425,11 @@ def main():
     os.makedirs(wd, exist_ok=True)
     broken = []      # things that no longer check (proof obligations / extractor / correspondence)
     notes = []
+    if replay_note:
+        notes.append(replay_note)
 
     with Lock():
-        harness_ok, n1 = build_tools(race=cfg.get("race_binary", False))
+        harness_ok, n1, race_ok = build_tools(race=cfg.get("race_binary", False))
         notes += n1
         gen_ok, missing, gout = regenerate()
         if not gen_ok:
@@ -392,6 +440,8 @@ def main():
     if not harness_ok:
         # /repo does not compile: not a property verdict we can give; report as broken correspondence
         broken.append("harness does not build against /repo")
+    if cfg.get("race_binary") and harness_ok and not race_ok:
+        broken.append("race-instrumented harness does not build: the 'without racing' clause cannot be checked")
 
     if cfg.get("custom"):
         # properties with their own runner (network trace validation etc.)
@@ -426,6 +476,11 @@ def main():
             if nrec != nans:
                 hard_fail.append(f"{what}: {nrec} records but {nans} answers")
             analyze(cfg, rp, ap, an)
+        if not is_replay and an.n < cfg.get("min_records", {}).get(tier, 10):
+            hard_fail.append(f"only {an.n} records were produced and answered (expected at least {cfg.get('min_records', {}).get(tier, 10)})")
+        for tag, cnt in an.branches.items():
+            if tag.startswith("skip:no"):
+                hard_fail.append(f"{cnt} records could not be run ({tag}): a child binary or temporary directory is missing")
     else:
         if not lb["driver_ok"]:
             broken.append("driver does not build: " + lb["log"][-800:])
@@ -446,10 +501,16 @@ def main():
     if an.ne:
         broken.append(f"correspondence: model and implementation differ on {len(an.ne)} of {an.n} records, first: {an.ne[0][1][:200]}")
 
+    unfiltered = {"h0": len(an.h0), "ne": len(an.ne)}
     if cfg.get("confirm_rerun") and an.h0:
-        # timed scripts: believe a failure only if it shows again when the record is re-run alone
-        # (first record of each clause class; at most two attempts per class)
+        # timed scripts: a failure is believed if it shows again when the record is re-run alone (up to three
+        # re-runs of up to four different records of the class), or if the class showed on at least three
+        # independent records of this run (an intermittent, schedule-dependent defect need not reproduce at will)
         confirmed, state = [], {}
+        by_class = {}
+        for t in an.h0:
+            clause = t[3][3:] if t[3].startswith("H0:") else t[3]
+            by_class.setdefault((clause.split("@")[0], t[1].split(" ")[0]), set()).add(t[1])
         for t in an.h0:
             clause = t[3][3:] if t[3].startswith("H0:") else t[3]
             key = (clause.split("@")[0], t[1].split(" ")[0])
@@ -457,15 +518,25 @@ def main():
             if st == "ok":
                 confirmed.append(t)
                 continue
-            if st >= 2:
+            if len(by_class[key]) >= 3:
+                state[key] = "ok"
+                confirmed.append(t)
+                notes.append(f"class {key} seen on {len(by_class[key])} independent records: believed without re-run")
                 continue
-            r = eval_session(cfg, fam, t[0], f"{pid}/confirm")
-            if any(" H0" in a for (_, _, a) in r):
+            if st >= 4:
+                continue
+            ok = False
+            for attempt in range(3):
+                r = eval_session(cfg, fam, t[0], f"{pid}/confirm")
+                if any(" H0" in a for (_, _, a) in r):
+                    ok = True
+                    break
+            if ok:
                 state[key] = "ok"
                 confirmed.append(t)
             else:
                 state[key] = st + 1
-                notes.append("not reproduced when re-run alone: " + t[1][:200] + " -> " + t[3][:120])
+                notes.append("not reproduced in three re-runs alone: " + t[1][:200] + " -> " + t[3][:120])
         an.h0 = confirmed
 
     known = load_known()
@@ -475,13 +546,22 @@ def main():
     seen_classes = {}
     for (sess, inp, impl, h) in an.h0:
         clause = h[3:] if h.startswith("H0:") else h
-        key = (clause.split("@")[0], inp.split(" ")[0])
+        k0 = classify_known(pid, clause, sess, known)
+        key = (clause.split("@")[0], inp.split(" ")[0], k0["id"] if k0 else None)
         if seen_classes.get(key, 0) >= 1:
             seen_classes[key] += 1
             continue
         seen_classes[key] = 1
-        small = shrink(cfg, fam, sess, lambda a: (" H0" in a), f"{pid}/shrink") if cfg.get("shrink", True) else sess
-        res = eval_session(cfg, fam, small, f"{pid}/shrink")
+        if k0:
+            # a listed finding: no shrinking needed (its class is defined on the record itself)
+            known_hits.append((k0, clause, sess))
+            continue
+        if clause.startswith("hang"):
+            # re-running a record that does not return costs the full per-record deadline each time: keep the session as it is
+            small, res = sess, [(inp, impl, h)]
+        else:
+            small = shrink(cfg, fam, sess, lambda a: (" H0" in a), f"{pid}/shrink") if cfg.get("shrink", True) else sess
+            res = eval_session(cfg, fam, small, f"{pid}/shrink")
         k = classify_known(pid, clause, small, known)
         payload = {"property": pid, "kind": "property-false-on-implementation", "clause": clause,
                    "records": small, "implementation_and_model": [{"record": a, "impl": b[:2000], "answer": c[:2000]} for a, b, c in res],
@@ -508,23 +588,30 @@ def main():
                 run_harness(fam, extra_seed, cfg["n"]["thorough"], "quick", rp, timeout=cfg.get("timeout", 3000))
                 run_driver(rp, ap)
                 a2 = analyze(cfg, rp, ap)
-                if a2.h0:
-                    found = a2.h0[0]
+                for cand in a2.h0:
+                    c_clause = cand[3][3:] if cand[3].startswith("H0:") else cand[3]
+                    kk = classify_known(pid, c_clause, cand[0], known)
+                    if kk:
+                        if kk["id"] not in [x[0]["id"] for x in known_hits]:
+                            known_hits.append((kk, c_clause, cand[0]))
+                        continue
+                    if cfg.get("confirm_rerun"):
+                        r = eval_session(cfg, fam, cand[0], f"{pid}/confirm")
+                        if not any(" H0" in a for (_, _, a) in r):
+                            continue
+                    found = cand
+                    break
+                if found:
                     break
         if found:
             sess, inp, impl, h = found
+            clause = h[3:] if h.startswith("H0:") else h
             small = shrink(cfg, fam, sess, lambda a: (" H0" in a), f"{pid}/shrink")
             res = eval_session(cfg, fam, small, f"{pid}/shrink")
-            payload = {"property": pid, "kind": "property-false-on-implementation", "clause": h, "records": small,
+            payload = {"property": pid, "kind": "property-false-on-implementation", "clause": clause, "records": small,
                        "implementation_and_model": [{"record": a, "impl": b[:2000], "answer": c[:2000]} for a, b, c in res],
                        "no_longer_checks": broken + hard_fail, "seed": seed}
-            k = classify_known(pid, h, small, known)
-            if k:
-                known_hits.append((k, h, small))
-                # still unproven: fall through to the no-failing-input report
-                found = None
-            else:
-                violations.append((write_replay(pid, seed, len(violations), payload), ""))
+            violations.append((write_replay(pid, seed, len(violations), payload), ""))
         if not found:
             smallest = None
             if an.ne:
@@ -555,13 +642,16 @@ def main():
             "model_equals_impl": an.eq, "model_differs": len(an.ne),
             "property_false_on_impl": len(an.h0),
             "record_kinds": an.kinds, "branches": an.branches,
-            "known_findings_seen": [k["id"] for (k, _, _) in known_hits],
+            "known_findings_seen": sorted(set(k["id"] for (k, _, _) in known_hits)),
+            "before_confirmation": unfiltered,
             "no_longer_checks": broken + hard_fail, "notes": notes,
         },
         "assumptions": cfg.get("assumptions", []),
         "wall_s": round(wall, 2), "violations": len(violations),
     }
-    with open(os.path.join(EVID, f"{pid}.json"), "w") as f:
+    # a replay run describes one input, not what the check covers: it does not replace the evidence file
+    evpath = os.path.join(EVID, f"{pid}.json") if not is_replay else os.path.join(wd, "replay_evidence.json")
+    with open(evpath, "w") as f:
         json.dump(ev, f, indent=1)
 
     seen = set()
